@@ -313,7 +313,7 @@ def run(ctx):
              "unsuggested points, explicit tell_pending, discards, both loss flags, strategy switches) over 1-5 children; "
              "lock-step with Sequence children, clause oracles with Sequence / Average / Learner1D children; "
              "non-trivial = distinct op-line sequence",
-        samples=[cases[0]["lines"][:6]],
+        samples=[c["lines"][:6] for c in cases[:1]],
         evaluations=len(cases) + len(results), distinct=len(corr.distinct),
         explanation="Balancing.lean mirrors the four selection loops, the three caches, the cycle position and the roll-back of a "
                     "non-committing ask; theorems hold for all lawful children. The oracle replays every ask on deep copies of the "
